@@ -72,6 +72,12 @@ class syntax_error(SourceFeedback):
     def __init__(self, line, filename, code, col_offset,
                  exception, exc_info, enhance=True, **kwargs):
         report = kwargs.get('report', MAIN_REPORT)
+        # Some syntax errors concern the whole file and carry no position
+        # (e.g., "source code string cannot contain null bytes")
+        if line is None:
+            line = 1
+        if filename is None:
+            filename = report.submission.main_file
         files = report.submission.get_files_lines()
         if filename not in files:
             files[filename] = code.split("\n")
@@ -87,7 +93,7 @@ class syntax_error(SourceFeedback):
                                       [report.submission.instructor_file],
                                       line_offsets, [filename], lines, files)
         traceback_stack = traceback.build_traceback()
-        traceback_message = traceback.format_traceback(traceback_stack, report.format)
+        traceback_message = traceback.format_traceback(traceback_stack, report.format) or ""
         traceback_preamble = f"The traceback was:\n" if traceback_message else ""
         #if not enhance:
         #    self.message_template = "{traceback_message}\n{exception_message}"
